@@ -436,6 +436,103 @@ impl Stream for HugeLengths
 	}
 }
 
+/// a constant array whose elements are expressions over other constants, and
+/// its run-time twin whose elements are the same expressions over variables
+/// holding the same values (constant and run-time elements mixed in any order)
+struct ArrayLiterals;
+impl Stream for ArrayLiterals
+{
+	fn name(&self) -> String
+	{
+		"array-literal-constants".into()
+	}
+	fn count(&self, tier: Tier) -> u64
+	{
+		tier.pick(1500, 20_000)
+	}
+	fn choice_len(&self) -> usize
+	{
+		60
+	}
+	fn run(&self, _idx: u64, c: &mut Choices, ctx: &RunCtx) -> CaseOut
+	{
+		let mut out = CaseOut::default();
+		let t = *c.pick(&["i32", "u8", "i64", "u16", "usize", "i8", "u64"]);
+		let nk = 1 + c.draw(3);
+		let ks: Vec<u32> = (0..nk).map(|_| c.draw(10) as u32).collect();
+		let n = 2 + c.draw(5);
+		// element: (constant spelling, run-time spelling, value, is run time)
+		let mut elems: Vec<(String, String, u32, bool)> = Vec::new();
+		for _ in 0..n
+		{
+			let k = c.draw(nk);
+			let lit = c.draw(10) as u32;
+			elems.push(match c.draw(5)
+			{
+				0 => (format!("{}", lit), format!("{}", lit), lit, false),
+				1 => (format!("K{}", k), format!("k{}", k), ks[k], true),
+				2 => (format!("K{} + {}", k, lit), format!("k{} + {}", k, lit), ks[k] + lit, true),
+				3 => (format!("{} * K{}", lit, k), format!("{} * k{}", lit, k), lit * ks[k], true),
+				// constant also in the run-time twin: constant and run-time elements mix
+				_ => (format!("K{}", k), format!("K{}", k), ks[k], false),
+			});
+		}
+		let mixed = elems.iter().any(|e| e.3) && elems.iter().any(|e| !e.3);
+		let consts: String = (0..nk).map(|k| format!("const K{}: {} = {};\n", k, t, ks[k])).collect();
+		let vars: String = (0..nk).map(|k| format!("\tvar k{}: {} = {};\n", k, t, ks[k])).collect();
+		let table = format!("const TABLE: [{}]{} = [{}];\n", n, t, elems.iter().map(|e| e.0.clone()).collect::<Vec<_>>().join(", "));
+		let twin = format!("\tvar table: [{}]{} = [{}];\n", n, t, elems.iter().map(|e| e.1.clone()).collect::<Vec<_>>().join(", "));
+		let prints: String = (0..n).map(|i| format!("\tprint!(TABLE[{i}], \" \", table[{i}], \"\\n\");\n")).collect();
+		let first = c.flag();
+		let src = if first
+		{
+			format!("{table}\n{consts}\nfn main() -> i32\n{{\n{vars}{twin}{prints}\tprint!(|TABLE|, \" \", |table|, \"\\n\");\n\treturn: 0\n}}\n")
+		}
+		else
+		{
+			format!("{consts}\n{table}\nfn main() -> i32\n{{\n{vars}{twin}{prints}\tprint!(|TABLE|, \" \", |table|, \"\\n\");\n\treturn: 0\n}}\n")
+		};
+		let want: String = elems.iter().map(|e| format!("{} {}\n", e.2, e.2)).collect::<String>() + &format!("{} {}\n", n, n);
+		out.key = fnv(&src);
+		out.nontrivial = mixed;
+		out.class(if mixed { "array-literal:constant and run-time elements mixed" } else { "array-literal:uniform" });
+		out.count("programs", 1);
+		let o = crate::alpha::compile_one(
+			&src,
+			crate::alpha::Options {
+				want_ir: true,
+				..Default::default()
+			},
+		);
+		if let Some(e) = &o.internal_error
+		{
+			out.fail(format!("internal error {}", e.chars().take(50).collect::<String>()), json!({"source": src}));
+		}
+		else if !o.ok
+		{
+			out.fail(format!("constant array of constant expressions rejected {:?}", o.codes), json!({"source": src, "codes": o.codes}));
+		}
+		else
+		{
+			let r = crate::alpha::run_ir(&o.module_irs[0], 10);
+			out.count("comparisons", n as u64 + 1);
+			let got = String::from_utf8_lossy(&r.stdout).to_string();
+			if !r.timed_out && got != want
+			{
+				out.fail(
+					"array literal: constant and run-time twin print other values than the model",
+					json!({"source": src, "stdout": got, "expected_stdout": want}),
+				);
+			}
+		}
+		if ctx.want_sample
+		{
+			out.sample = Some(json!({"source": src}));
+		}
+		out
+	}
+}
+
 /// named-constant lengths and |x| through every way of passing an array
 struct ArrayLengths;
 impl Stream for ArrayLengths
@@ -583,6 +680,6 @@ impl Check for C10
 	}
 	fn streams(&self) -> Vec<Box<dyn Stream>>
 	{
-		vec![Box::new(ConstExprs), Box::new(ArrayLengths), Box::new(Layouts), Box::new(WordLimits), Box::new(HugeLengths)]
+		vec![Box::new(ConstExprs), Box::new(ArrayLengths), Box::new(Layouts), Box::new(WordLimits), Box::new(HugeLengths), Box::new(ArrayLiterals)]
 	}
 }
